@@ -162,7 +162,7 @@ func c10checkHeld(cl *Client, l *c10ledger, hist string) {
 	}
 }
 
-var c10ops = []string{"send-m", "raw-p", "send-mp", "send-r", "in-r", "a=0", "a=1", "a=w-1", "a=w", "a=w+1", "send-rp", "raw-r", "send-a", "raw-a"}
+var c10ops = []string{"send-m", "raw-p", "send-mp", "send-r", "in-r", "a=0", "a=1", "a=w-1", "a=w", "a=w+1", "send-rp", "raw-r", "send-a", "raw-a", "raw-ws"}
 
 func c10body(first []string, maxLen int, prelude bool) func() {
 	return func() {
@@ -233,6 +233,21 @@ func c10body(first []string, maxLen int, prelude bool) func() {
 				}
 			case "raw-p":
 				raw := fmt.Sprintf("<presence id='p%d'><status>s%d</status></presence>", i, i)
+				l.accept(raw, false)
+				if err := s.cl.SendRaw(raw); err != nil {
+					vrt.Fail("C10|send-error", "%s: %v", hist, err)
+				}
+			case "raw-ws":
+				// raw stanzas laid out as a template or a pretty-printer writes them: white space of every kind after
+				// the element name, no attributes at all
+				raw := []string{
+					"<message\n\tto='peer@example.org'\n\tid='w%d'><body>b%d</body></message>",
+					"<iq\r\n type='set' id='w%d'><q xmlns='urn:example:q' n='%d'/></iq>",
+					"<presence\tid='w%d'><status>s%d</status></presence>",
+					"<message\rid='w%d'><body>b%d</body></message>",
+					"<presence><status>w%d s%d</status></presence>",
+				}[i%5]
+				raw = fmt.Sprintf(raw, i, i)
 				l.accept(raw, false)
 				if err := s.cl.SendRaw(raw); err != nil {
 					vrt.Fail("C10|send-error", "%s: %v", hist, err)
@@ -312,7 +327,7 @@ func c10body(first []string, maxLen int, prelude bool) func() {
 						vrt.Fail("C10|wrote-although-nothing-held", "%s", ctx)
 					}
 				}
-			case op == "send-m" || op == "raw-p" || op == "send-mp":
+			case op == "send-m" || op == "raw-p" || op == "send-mp" || op == "raw-ws":
 				if len(raws) != 1 || raws[0] != l.log[len(l.log)-1].raw {
 					vrt.Fail("C10|send-wire-wrong", "history [%s]: wrote %q, want exactly %q", hist, raws, l.log[len(l.log)-1].raw)
 				}
